@@ -3535,6 +3535,12 @@ namespace awkward {
                 current_error_ = util::ForthError::division_by_zero;
                 return;
               }
+              if (pair[1] == -1) {
+                // The most negative number divided by -1 traps in hardware (SIGFPE);
+                // like 'negate', the result wraps around.
+                pair[0] = -pair[0];
+                break;
+              }
               // Forth (gforth, at least) does floor division; C++ does integer division.
               // This makes a difference for negative numerator or denominator.
               T tmp = pair[0] / pair[1];
@@ -3552,6 +3558,11 @@ namespace awkward {
                 current_error_ = util::ForthError::division_by_zero;
                 return;
               }
+              if (pair[1] == -1) {
+                // anything modulo -1 is 0 (and the most negative number % -1 traps)
+                pair[0] = 0;
+                break;
+              }
               // Forth (gforth, at least) does modulo; C++ does remainder.
               // This makes a difference for negative numerator or denominator.
               pair[0] = (pair[1] + (pair[0] % pair[1])) % pair[1];
@@ -3568,6 +3579,12 @@ namespace awkward {
               if (two == 0) {
                 current_error_ = util::ForthError::division_by_zero;
                 return;
+              }
+              if (two == -1) {
+                // see 'CODE_DIV' and 'CODE_MOD': no hardware trap for the most negative number
+                stack_buffer_[stack_depth_ - 1] = -one;
+                stack_buffer_[stack_depth_ - 2] = 0;
+                break;
               }
               // See notes on division and modulo/remainder above.
               T tmp = one / two;
